@@ -2,12 +2,15 @@ package main
 
 import (
 	"fmt"
+	"regexp"
 	"go/constant"
 	"go/types"
 	"math/big"
 	"strconv"
 	"strings"
 )
+
+var boundedIntRe = regexp.MustCompile(`^int\[(\d+)\.\.(\d+)\]$`)
 
 var (
 	tInt    = types.Typ[types.Int]
@@ -191,6 +194,31 @@ func (env *SpecEnv) eval(x *SExpr) Value {
 	case "call":
 		return env.evalCall(x)
 	case "forall", "exists":
+		// bounded integer variables "int[lo..hi]" are expanded into ground instances
+		for vi, v := range x.Vars {
+			if m := boundedIntRe.FindStringSubmatch(v.Type); m != nil {
+				lo, _ := strconv.Atoi(m[1])
+				hi, _ := strconv.Atoi(m[2])
+				if hi-lo > 5000 {
+					specFail("bounded quantifier too large")
+				}
+				rest := &SExpr{Op: x.Op, Vars: append(append([]SVar{}, x.Vars[:vi]...), x.Vars[vi+1:]...), Args: x.Args}
+				var parts []Term
+				for n := lo; n <= hi; n++ {
+					c := env.child()
+					c.vars[v.Name] = intV(IntLit(int64(n)))
+					if len(rest.Vars) == 0 {
+						parts = append(parts, c.bool1(x.Args[0]))
+					} else {
+						parts = append(parts, c.bool1(rest))
+					}
+				}
+				if x.Op == "forall" {
+					return boolV(And(parts...))
+				}
+				return boolV(Or(parts...))
+			}
+		}
 		c := env.child()
 		c.inQuant++
 		var binders []string
@@ -768,6 +796,14 @@ func (env *SpecEnv) evalCall(x *SExpr) Value {
 			return Value{T: tF64, L: []Term{App(SReal, "to_real", v)}}
 		}
 		return Value{T: tF64, L: []Term{v}}
+	case "bytestr":
+		// the string a []byte was converted from (valid for the whole, unmodified slice)
+		v := ev(0)
+		arr := env.e.cur(env.st, "ghost:bytes$str", SStr, false)
+		if env.view != nil {
+			arr = env.e.curIn(env.view, "ghost:bytes$str", SStr, false)
+		}
+		return strV(Select(arr, sliceBase(v)))
 	case "isnil":
 		return boolV(Eq(refLeaf(ev(0)), Zero))
 	case "ref":
